@@ -25,6 +25,9 @@ pub enum Op {
     Unwind(u8),
     /// call an engine routine that must leave the board untouched
     Probe(u8),
+    /// continue on a clone of the board (the original is dropped): a copy must carry the
+    /// whole undo history
+    CloneBoard,
 }
 
 #[derive(Clone, Copy, Debug, Default)]
@@ -57,6 +60,7 @@ pub fn op_strategy(quiet_w: u32, noisy_w: u32, special_w: u32, undo_w: u32, prob
         undo_w => Just(Op::Undo),
         (undo_w / 4).max(if undo_w > 0 { 1 } else { 0 }) => (1u8..40).prop_map(Op::Unwind),
         probe_w => (0u8..6).prop_map(Op::Probe),
+        1 => Just(Op::CloneBoard),
     ]
     .boxed()
 }
@@ -545,6 +549,11 @@ impl Interp {
                 Ok(())
             }
             Op::Probe(k) => self.do_probe(*k),
+            Op::CloneBoard => {
+                self.board = self.board.clone();
+                self.note("continued-on-a-clone");
+                Ok(())
+            }
             _ => {
                 let legal = self.cur.legal_moves();
                 // stay inside a legal game: the 75-move rule ends it at 150
@@ -625,6 +634,7 @@ pub fn describe(h: &History) -> serde_json::Value {
                 }
             }
             Op::Probe(k) => text.push(format!("probe{}", k % 6)),
+            Op::CloneBoard => text.push("clone".into()),
             _ => {
                 let legal = cur.legal_moves();
                 if let Some(m) = choose(&cur, &legal, op) {
